@@ -3,7 +3,10 @@
 package rules
 
 import (
+	"encoding/json"
 	"fmt"
+	"os"
+	"path/filepath"
 	"sort"
 	"sync"
 
@@ -91,6 +94,15 @@ func Run(prop, tier string) int {
 	if t, ok := propText[prop]; ok {
 		c.R.Explanation = t.Explanation
 		c.R.NotDecided = t.NotDecided
+	}
+	// frozen minimum numbers of obligations per rule (a rule that matches too few sites passes vacuously)
+	if b, err := os.ReadFile(filepath.Join(core.VerifDir(), "tables", "mincounts.json")); err == nil {
+		all := map[string]map[string]int{}
+		if json.Unmarshal(b, &all) == nil && tier != "selftest" {
+			for rule, n := range all[prop] {
+				c.R.MinCounts[rule] = n
+			}
+		}
 	}
 	if c.R.RuleText == "" || len(c.R.RuleText) < 60 {
 		c.R.RuleText = p.RuleText + " — " + ruleGlossary
